@@ -4,3 +4,5 @@ from . import parser   # noqa: F401
 from . import cli      # noqa: F401
 from . import graphq   # noqa: F401
 from . import modelr   # noqa: F401
+from . import transformr  # noqa: F401
+from . import layoutr  # noqa: F401
